@@ -1,15 +1,175 @@
 package main
 
 import (
+	"flag"
 	"fmt"
+	"os"
+	"path/filepath"
+	"sort"
+	"strings"
 
 	"golang.org/x/tools/go/packages"
 	"golang.org/x/tools/go/ssa"
 	"golang.org/x/tools/go/ssa/ssautil"
 )
 
-var _ = packages.Load
-var _ ssa.Value
-var _ = ssautil.AllPackages
+type Loaded struct {
+	prog *ssa.Program
+	pkg  *ssa.Package
+	pp   *packages.Package
+}
 
-func main() { fmt.Println("ok") }
+func loadRepo(dir string) (*Loaded, error) {
+	cfg := &packages.Config{
+		Mode: packages.NeedName | packages.NeedFiles | packages.NeedCompiledGoFiles | packages.NeedImports |
+			packages.NeedTypes | packages.NeedTypesSizes | packages.NeedSyntax | packages.NeedTypesInfo | packages.NeedDeps,
+		Dir:        dir,
+		BuildFlags: []string{"-tags=verif"},
+		Env:        append(os.Environ(), "GOFLAGS=-mod=mod", "GOPROXY=off", "GOSUMDB=off", "GOTOOLCHAIN=local"),
+	}
+	pkgs, err := packages.Load(cfg, ".")
+	if err != nil {
+		return nil, err
+	}
+	if len(pkgs) != 1 {
+		return nil, fmt.Errorf("expected one package, got %d", len(pkgs))
+	}
+	if len(pkgs[0].Errors) > 0 {
+		return nil, fmt.Errorf("package errors: %v", pkgs[0].Errors)
+	}
+	prog, spkgs := ssautil.Packages(pkgs, ssa.GlobalDebug|ssa.InstantiateGenerics)
+	if spkgs[0] == nil {
+		return nil, fmt.Errorf("no SSA package")
+	}
+	prog.Build()
+	return &Loaded{prog: prog, pkg: spkgs[0], pp: pkgs[0]}, nil
+}
+
+func preludeFiles(verifDir string) []string {
+	fs, _ := filepath.Glob(filepath.Join(verifDir, "spec", "*.smt2"))
+	sort.Strings(fs)
+	return fs
+}
+
+func main() {
+	if len(os.Args) < 2 {
+		fmt.Fprintln(os.Stderr, "usage: govc <func|check|selftest> ...")
+		os.Exit(2)
+	}
+	switch os.Args[1] {
+	case "func":
+		cmdFunc(os.Args[2:])
+	case "check":
+		cmdCheck(os.Args[2:])
+	default:
+		fmt.Fprintln(os.Stderr, "unknown command", os.Args[1])
+		os.Exit(2)
+	}
+}
+
+type session struct {
+	ld   *Loaded
+	m    *Machine
+	smt  *SMT
+	cf   *ContractFile
+	repo string
+	vdir string
+}
+
+func openSession(repo, vdir, tier string, seed int) (*session, error) {
+	ld, err := loadRepo(repo)
+	if err != nil {
+		return nil, err
+	}
+	cf, err := parseContractFile(filepath.Join(repo, "zz_verif_contracts.go"))
+	if err != nil {
+		return nil, err
+	}
+	pre, err := loadPrelude(preludeFiles(vdir))
+	if err != nil {
+		return nil, err
+	}
+	m := newMachine(ld.prog, ld.pkg, cf, pre)
+	smt, err := newSMT(pre, tier, seed)
+	if err != nil {
+		return nil, err
+	}
+	return &session{ld: ld, m: m, smt: smt, cf: cf, repo: repo, vdir: vdir}, nil
+}
+
+// cmdFunc: verify one function and print every obligation (debugging aid).
+func cmdFunc(args []string) {
+	fs := flag.NewFlagSet("func", flag.ExitOnError)
+	repo := fs.String("repo", "/repo", "")
+	vdir := fs.String("verif", "/verif", "")
+	key := fs.String("key", "", "function key")
+	tier := fs.String("tier", "quick", "")
+	safety := fs.Bool("safety", true, "")
+	dump := fs.Bool("dump", false, "print failing queries")
+	fs.Parse(args)
+	s, err := openSession(*repo, *vdir, *tier, 0)
+	if err != nil {
+		fmt.Fprintln(os.Stderr, "error:", err)
+		os.Exit(2)
+	}
+	defer s.smt.cleanup()
+	keys := strings.Split(*key, ",")
+	if *key == "" {
+		keys = s.cf.Order
+	}
+	bad := 0
+	for _, k := range keys {
+		fc := s.cf.Funcs[k]
+		rep := s.m.verifyFunction(k, fc, verifyOpts{safety: *safety, safetyProp: []string{"C14"}})
+		s.m.solveAll(s.smt, rep.Obligs, 16)
+		fmt.Printf("== %s: paths=%d obligations=%d", k, rep.Paths, len(rep.Obligs))
+		if rep.Unsup != "" {
+			fmt.Printf(" UNSUPPORTED: %s", rep.Unsup)
+		}
+		fmt.Println()
+		for _, e := range rep.Errors {
+			fmt.Println("   contract error:", e)
+		}
+		for _, st := range rep.Stale {
+			fmt.Println("   ", st)
+		}
+		cnt := map[string]int{}
+		for _, o := range rep.Obligs {
+			status := o.Res.Status
+			if o.ExpectSat {
+				if status == "sat" {
+					status = "ok(sat)"
+				} else {
+					status = "VACUOUS(" + status + ")"
+				}
+			}
+			cnt[status]++
+			if status != "unsat" && status != "ok(sat)" {
+				bad++
+				fmt.Printf("   %-10s %s path=%d site=%s abstract=%v by=%s\n", status, o.Name(), o.Path, o.Site, o.Abstract, o.Res.Backend)
+				if len(o.Res.Model) > 0 {
+					var ks []string
+					for k := range o.Res.Model {
+						ks = append(ks, k)
+					}
+					sort.Strings(ks)
+					for _, k := range ks {
+						fmt.Printf("        %s = %s\n", k, o.Res.Model[k])
+					}
+				}
+				if *dump {
+					fmt.Println(s.m.queryOf[o])
+				}
+			}
+		}
+		fmt.Printf("   summary: %v\n", cnt)
+	}
+	if bad > 0 {
+		os.Exit(1)
+	}
+}
+
+func cmdCheck(args []string) {
+	fmt.Fprintln(os.Stderr, "check: not yet implemented")
+	os.Exit(2)
+}
